@@ -1,0 +1,50 @@
+//go:build verif
+
+package keeper
+
+// Contracts for the deductive checker in /verif (comment-only; compiled only with -tags verif).
+// C07, up-front deduction: DeductTxCostsFromUserBalance, CheckSenderBalance. Lib specs: /verif/specs/c07, /verif/specs/c07d.
+
+import (
+	sdk "github.com/cosmos/cosmos-sdk/types"
+	sdkerrors "github.com/cosmos/cosmos-sdk/types/errors"
+	authtypes "github.com/cosmos/cosmos-sdk/x/auth/types"
+)
+
+// modelDeductFees is the assumed behaviour of x/auth/ante.DeductFees: a verbatim copy of the function in
+// cosmos-sdk v0.47.12-evmos.2 x/auth/ante/fee.go:125. The engine executes it in place of the call (`model`, specs/c07d).
+func modelDeductFees(bankKeeper authtypes.BankKeeper, ctx sdk.Context, acc authtypes.AccountI, fees sdk.Coins) error {
+	if !fees.IsValid() {
+		return sdkerrors.Wrapf(sdkerrors.ErrInsufficientFee, "invalid fee amount: %s", fees)
+	}
+
+	err := bankKeeper.SendCoinsFromAccountToModule(ctx, acc.GetAddress(), authtypes.FeeCollectorName, fees)
+	if err != nil {
+		return sdkerrors.Wrapf(sdkerrors.ErrInsufficientFunds, err.Error())
+	}
+
+	return nil
+}
+
+/*@
+// C07: the fees move, all or nothing, from the account of `from` to the fee collector module account, through exactly one
+// bank call SendCoinsFromAccountToModule(ctx, from, "fee_collector", fees); any failure is reported (non-nil) and moves nothing.
+func (*Keeper).DeductTxCostsFromUserBalance
+    let payer = acc_of_bytes(addr_bytes(from))
+    let collector = acc_of_module("fee_collector")
+    requires nonnil: k != nil && k.bankKeeper != nil && k.accountKeeper != nil
+    modifies bank_bal, fee_paid
+    call SendCoinsFromAccountToModule requires args: senderAddr == addr_bytes(from) && recipientModule == "fee_collector" && amt == fees && ctx == old(ctx)
+    ensures moved: result == nil ==> bank_bal == bal_move(old(bank_bal), payer, collector, fees)
+    ensures ledger: result == nil ==> fee_paid == paid_add(old(fee_paid), collector, payer, fees)
+    ensures failed: result != nil ==> bank_bal == old(bank_bal) && fee_paid == old(fee_paid)
+    // the bank call is not skipped: success means it was made and succeeded
+    ensures called: result == nil ==> ret(SendCoinsFromAccountToModule, 1, 0) == nil
+
+// C07: the balance check passes exactly when the cost (fee cap x gas limit + value) is not negative and the balance covers it.
+func CheckSenderBalance
+    let c = txd_feecap(txData) * txd_gas(txData) + txd_value(txData)
+    requires nonnil: txData != nil
+    requires wf: txd_wf(txData)
+    ensures covered: (result == nil) == (c >= 0 && balance >= c)
+@*/
